@@ -633,6 +633,11 @@ def e_send_expect(ctx, s):
     d = body(ctx, "txtpp_drop")
     if not d or not calls_to(d, "threadpool::ThreadPool::join"):
         return None
+    # .. on EVERY way out of drop (an early return before the join lets queued tasks outlive the receiver: their send fails and
+    # the `expect` panics in the worker thread)
+    joined = out_edges(d, [bb for bb, t in calls_to(d, "threadpool::ThreadPool::join")])
+    if not all(C.guarded(d, r, joined) for r in C.live(d) if d.term(r)["k"] == "return"):
+        return None
     # the receiver is never moved out of the struct
     for b in ctx.lib.bodies.values():
         for bb, si, st in b.stmts():
